@@ -139,17 +139,35 @@ package patchvalidator
 
 // the member rule of a key object: type and id present, exactly one of publicKeyJwk /
 // publicKeyBase58, nothing else except purposes. The function builds its tables from slice
-// literals with nested constant-length loops; its contract is checked by the bounded stand-in
-// bounded/c13_keyprops (every presence pattern of the five known and two unknown members) and
-// is an assumption of the proofs below.
+// literals and walks them with nested loops; every loop carries an invariant below.
 //@ spec func propsOK(pk document.PublicKey) bool =
 //@     has(pk, "type") && has(pk, "id") && (has(pk, "publicKeyJwk") != has(pk, "publicKeyBase58")) &&
 //@     (forall k string :: has(pk, k) ==> k == "type" || k == "id" || k == "purposes" || k == "publicKeyJwk" || k == "publicKeyBase58")
 //
+// the tables the function builds from slice literals, as the loops see them
+//@ spec func reqTable(l []string) bool = len(l) == 2 && l[0] == "type" && l[1] == "id"
+//@ spec func groupTable(g [][]string) bool = len(g) == 1 && len(g[0]) == 2 && g[0][0] == "publicKeyJwk" && g[0][1] == "publicKeyBase58"
+//@ spec func allowedTable(l []string) bool = len(l) == 5 && l[0] == "type" && l[1] == "id" && l[2] == "purposes" && l[3] == "publicKeyJwk" && l[4] == "publicKeyBase58"
+//
 //@ func validatePublicKeyProperties(pubKey) (err)
 //@   pure
-//@   trusted "bounded: checked exhaustively over member-presence patterns by bounded/c13_keyprops, not proved"
 //@   ensures [iff] (err == nil) == propsOK(pubKey)
+// loop 0: the allowed-member table is completed from the one-of group
+//@   loop 0 invariant [tables] $k <= 1 && reqTable(requiredKeys) && groupTable(oneOfNKeys) && !sameArray(allowedKeys, requiredKeys) && !sameArray(allowedKeys, oneOfNKeys[0]) &&
+//@        len(allowedKeys) == 3 + 2 * $k && allowedKeys[0] == "type" && allowedKeys[1] == "id" && allowedKeys[2] == "purposes" &&
+//@        ($k == 1 ==> allowedKeys[3] == "publicKeyJwk" && allowedKeys[4] == "publicKeyBase58")
+// loop 1: required members seen so far are present
+//@   loop 1 invariant [required] $k <= 2 && reqTable(requiredKeys) && groupTable(oneOfNKeys) && allowedTable(allowedKeys) &&
+//@        ($k >= 1 ==> has(pubKey, "type")) && ($k >= 2 ==> has(pubKey, "id"))
+// loop 2 / 3: exactly one member of the group
+//@   loop 2 invariant [group] $k <= 1 && groupTable(oneOfNKeys) && allowedTable(allowedKeys) && has(pubKey, "type") && has(pubKey, "id") &&
+//@        ($k == 1 ==> has(pubKey, "publicKeyJwk") != has(pubKey, "publicKeyBase58"))
+//@   loop 3 invariant [one] $k <= 2 && groupTable(oneOfNKeys) && allowedTable(allowedKeys) && has(pubKey, "type") && has(pubKey, "id") && sameArray(keyGroup, oneOfNKeys[0]) && len(keyGroup) == 2 &&
+//@        ($k == 0 ==> !satisfied) && ($k == 1 ==> satisfied == has(pubKey, "publicKeyJwk")) &&
+//@        ($k == 2 ==> satisfied == (has(pubKey, "publicKeyJwk") != has(pubKey, "publicKeyBase58")) && !(has(pubKey, "publicKeyJwk") && has(pubKey, "publicKeyBase58")))
+// loop 4: every member seen so far is an allowed one
+//@   loop 4 invariant [allowed] allowedTable(allowedKeys) && has(pubKey, "type") && has(pubKey, "id") && (has(pubKey, "publicKeyJwk") != has(pubKey, "publicKeyBase58")) &&
+//@        (forall k string :: visited(k) ==> k == "type" || k == "id" || k == "purposes" || k == "publicKeyJwk" || k == "publicKeyBase58")
 
 //@ spec func jwkOf(pk document.PublicKey) document.JWK =
 //@     ite(typeis(pk["publicKeyJwk"], map[string]interface{}), document.JWK(pk["publicKeyJwk"].(map[string]interface{})), zeroOf(0, document.JWK))
